@@ -79,7 +79,7 @@ package anthropic
 //@   property C13
 //@   trusted
 //@   requires evAllowed(event, data)
-//@   modifies gvar evStarted, gvar evOpen, gvar evNext, gvar evDelta, gvar evStopped, gvar evBroken, gvar textOut, gvar argsOut
+//@   modifies gvar evStarted, gvar evOpen, gvar evNext, gvar evDelta, gvar evStopped, gvar evBroken, gvar unflushed, gvar textOut, gvar argsOut
 //@   records textOut = ite(res == nil, concat(old(textOut), evTextPayload(event, data)), old(textOut))
 //@   records argsOut = ite(res == nil, concat(old(argsOut), evArgsPayload(event, data)), old(argsOut))
 //@   records evStarted = old(evStarted) || (res == nil && event == "message_start")
@@ -91,8 +91,9 @@ package anthropic
 
 //@ extern (*net/http.ResponseController).Flush()
 //@   trusted
-//@   modifies gvar evBroken
+//@   modifies gvar evBroken, gvar unflushed
 //@   records evBroken = old(evBroken) || res != nil
+//@   records unflushed = ite(res == nil, 0, old(unflushed))
 
 // the translator's bookkeeping agrees with what the client has seen
 //@ spec func streamInv(state *StreamingState) bool = state != nil && state.toolCallBuffers != nil && state.toolIndexToBlock != nil && state.toolCallBuffers != state.toolIndexToBlock && (evBroken || (evStarted == state.messageStartSent && !evDelta && !evStopped && evNext == len(state.contentBlocks) && (state.currentBlock == nil ==> evOpen == -1) && (state.currentBlock != nil ==> evOpen == state.currentIndex && state.messageStartSent))) && (state.currentBlock != nil ==> 0 <= state.currentIndex && state.currentIndex < len(state.contentBlocks)) && (forall k int :: has(state.toolCallBuffers, k) ==> state.toolCallBuffers[k] != nil) && (forall k int :: has(state.toolIndexToBlock, k) ==> 0 <= state.toolIndexToBlock[k] && state.toolIndexToBlock[k] < len(state.contentBlocks))
@@ -106,7 +107,7 @@ package anthropic
 //@   property C13
 //@   safety
 //@   requires t != nil && rc != nil && streamInv(state)
-//@   modifies gvar evStarted, gvar evOpen, gvar evNext, gvar evDelta, gvar evStopped, gvar evBroken, gvar textOut, gvar argsOut, state.messageStartSent
+//@   modifies gvar evStarted, gvar evOpen, gvar evNext, gvar evDelta, gvar evStopped, gvar evBroken, gvar unflushed, gvar textOut, gvar argsOut, state.messageStartSent
 //@   ensures old(evBroken) ==> evBroken
 //@   ensures res == nil && !evBroken ==> textOut == old(textOut) && argsOut == old(argsOut)
 //@   ensures streamInv(state)
@@ -117,7 +118,7 @@ package anthropic
 //@   property C13
 //@   safety
 //@   requires t != nil && rc != nil && streamInv(state)
-//@   modifies gvar evStarted, gvar evOpen, gvar evNext, gvar evDelta, gvar evStopped, gvar evBroken, gvar textOut, gvar argsOut
+//@   modifies gvar evStarted, gvar evOpen, gvar evNext, gvar evDelta, gvar evStopped, gvar evBroken, gvar unflushed, gvar textOut, gvar argsOut
 //@   ensures old(evBroken) ==> evBroken
 //@   ensures res == nil && !evBroken ==> textOut == old(textOut) && argsOut == old(argsOut)
 //@   ensures res != nil ==> evBroken
@@ -129,7 +130,7 @@ package anthropic
 //@   property C13
 //@   safety
 //@   requires t != nil && rc != nil && streamInv(state)
-//@   modifies gvar evStarted, gvar evOpen, gvar evNext, gvar evDelta, gvar evStopped, gvar evBroken, gvar textOut, gvar argsOut, state.messageStartSent, state.currentBlock, state.currentIndex, state.contentBlocks, ContentBlock.Text
+//@   modifies gvar evStarted, gvar evOpen, gvar evNext, gvar evDelta, gvar evStopped, gvar evBroken, gvar unflushed, gvar textOut, gvar argsOut, state.messageStartSent, state.currentBlock, state.currentIndex, state.contentBlocks, ContentBlock.Text
 //@   ensures old(evBroken) ==> evBroken
 //@   ensures res == nil && !evBroken ==> textOut == concat(old(textOut), content) && argsOut == old(argsOut)
 //@   ensures res != nil ==> evBroken
@@ -147,7 +148,7 @@ package anthropic
 //@   replay anthropic_stream_two_tools
 //@   safety
 //@   requires t != nil && rc != nil && streamInv(state) && (evBroken || evStarted)
-//@   modifies gvar evStarted, gvar evOpen, gvar evNext, gvar evDelta, gvar evStopped, gvar evBroken, gvar textOut, gvar argsOut, state.currentBlock, state.currentIndex, state.contentBlocks, state.toolIndexToBlock[all]
+//@   modifies gvar evStarted, gvar evOpen, gvar evNext, gvar evDelta, gvar evStopped, gvar evBroken, gvar unflushed, gvar textOut, gvar argsOut, state.currentBlock, state.currentIndex, state.contentBlocks, state.toolIndexToBlock[all]
 //@   ensures old(evBroken) ==> evBroken
 //@   ensures res == nil && !evBroken ==> textOut == old(textOut) && argsOut == old(argsOut)
 //@   ensures res != nil ==> evBroken
@@ -161,7 +162,7 @@ package anthropic
 //@   requires t != nil && rc != nil && streamInv(state) && (evBroken || evStarted)
 //@   requires has(state.toolCallBuffers, toolIndex) && state.toolCallBuffers[toolIndex] != nil
 //@   requires evBroken || state.currentBlock != nil
-//@   modifies gvar evStarted, gvar evOpen, gvar evNext, gvar evDelta, gvar evStopped, gvar evBroken, gvar textOut, gvar argsOut
+//@   modifies gvar evStarted, gvar evOpen, gvar evNext, gvar evDelta, gvar evStopped, gvar evBroken, gvar unflushed, gvar textOut, gvar argsOut
 //@   ensures old(evBroken) ==> evBroken
 //@   ensures res == nil && !evBroken ==> textOut == old(textOut) && argsOut == concat(old(argsOut), args)
 //@   ensures res != nil ==> evBroken
@@ -171,7 +172,7 @@ package anthropic
 //@   property C13
 //@   safety
 //@   requires t != nil && rc != nil && streamInv(state)
-//@   modifies gvar evStarted, gvar evOpen, gvar evNext, gvar evDelta, gvar evStopped, gvar evBroken, gvar textOut, gvar argsOut, gvar argsIn, state.messageStartSent, state.currentBlock, state.currentIndex, state.contentBlocks, state.toolIndexToBlock[all], state.toolCallBuffers[all]
+//@   modifies gvar evStarted, gvar evOpen, gvar evNext, gvar evDelta, gvar evStopped, gvar evBroken, gvar unflushed, gvar textOut, gvar argsOut, gvar argsIn, state.messageStartSent, state.currentBlock, state.currentIndex, state.contentBlocks, state.toolIndexToBlock[all], state.toolCallBuffers[all]
 //@   ensures old(evBroken) ==> evBroken
 //@   ensures res == nil && !evBroken ==> textOut == old(textOut) && (old(argsOut) == old(argsIn) ==> argsOut == argsIn)
 //@   ensures res != nil ==> evBroken
@@ -188,7 +189,7 @@ package anthropic
 //@   property C13
 //@   safety
 //@   requires t != nil && rc != nil && t.inspector != nil && t.logger != nil && streamInv(state) && (evBroken || evStarted)
-//@   modifies gvar evStarted, gvar evOpen, gvar evNext, gvar evDelta, gvar evStopped, gvar evBroken, gvar textOut, gvar argsOut, state.contentBlocks
+//@   modifies gvar evStarted, gvar evOpen, gvar evNext, gvar evDelta, gvar evStopped, gvar evBroken, gvar unflushed, gvar textOut, gvar argsOut, state.contentBlocks
 //@   loop 1 invariant streamInv2(state) && (old(evBroken) ==> evBroken)
 //@   ensures res == nil && !evBroken ==> evStarted && evDelta && evStopped && evOpen == -1
 //@   ensures res == nil && !evBroken ==> textOut == old(textOut) && argsOut == old(argsOut)
@@ -202,7 +203,7 @@ package anthropic
 //@   property C13 C20
 //@   safety
 //@   requires t != nil && rc != nil && t.logger != nil && streamInv(state)
-//@   modifies gvar evStarted, gvar evOpen, gvar evNext, gvar evDelta, gvar evStopped, gvar evBroken, gvar textOut, gvar argsOut, gvar argsIn, state.messageStartSent, state.currentBlock, state.currentIndex, state.contentBlocks, state.toolIndexToBlock[all], state.toolCallBuffers[all], state.model, state.lastFinishReason, state.inputTokens, state.outputTokens, ContentBlock.Text
+//@   modifies gvar evStarted, gvar evOpen, gvar evNext, gvar evDelta, gvar evStopped, gvar evBroken, gvar unflushed, gvar textOut, gvar argsOut, gvar argsIn, state.messageStartSent, state.currentBlock, state.currentIndex, state.contentBlocks, state.toolIndexToBlock[all], state.toolCallBuffers[all], state.model, state.lastFinishReason, state.inputTokens, state.outputTokens, ContentBlock.Text
 //@   ensures old(evBroken) ==> evBroken
 //@   ensures !evBroken ==> (old(argsOut) == old(argsIn) ==> argsOut == argsIn)
 //@   ensures streamInv(state)
@@ -211,7 +212,7 @@ package anthropic
 //@   property C13 C20
 //@   safety
 //@   requires t != nil && rc != nil && t.logger != nil && streamInv(state)
-//@   modifies gvar evStarted, gvar evOpen, gvar evNext, gvar evDelta, gvar evStopped, gvar evBroken, gvar textOut, gvar argsOut, gvar argsIn, state.messageStartSent, state.currentBlock, state.currentIndex, state.contentBlocks, state.toolIndexToBlock[all], state.toolCallBuffers[all], state.model, state.lastFinishReason, state.inputTokens, state.outputTokens, ContentBlock.Text
+//@   modifies gvar evStarted, gvar evOpen, gvar evNext, gvar evDelta, gvar evStopped, gvar evBroken, gvar unflushed, gvar textOut, gvar argsOut, gvar argsIn, state.messageStartSent, state.currentBlock, state.currentIndex, state.contentBlocks, state.toolIndexToBlock[all], state.toolCallBuffers[all], state.model, state.lastFinishReason, state.inputTokens, state.outputTokens, ContentBlock.Text
 //@   loop 1 invariant streamInv(state) && (old(evBroken) ==> evBroken) && (evBroken || (old(argsOut) == old(argsIn) ==> argsOut == argsIn))
 //@   ensures old(evBroken) ==> evBroken
 //@   ensures !evBroken ==> (old(argsOut) == old(argsIn) ==> argsOut == argsIn)
